@@ -75,6 +75,7 @@ type Contract struct {
 	Uses     []LemmaUse
 	WritesVia []WritesVia
 	NoAlloc  bool      // the function allocates nothing (checked on the callee, used at call sites: allocation counter unchanged)
+	EntryAssumes []Clause // assumptions made at function entry (not obligations of callers)
 	AllocProps []string // properties that own the allocation-size obligations (every make sized by a non-constant is bounded by 65536*memcap); empty = not generated
 	Safety   []string  // properties that own this function's safety side-conditions (nopanic/overflow/pre@); empty = all props
 	Functional string  // name of the ufunc this function's single result equals (deterministic function of its arguments)
@@ -404,6 +405,14 @@ func ParseContracts(P *Program) (*Contracts, error) {
 						return nil, err
 					}
 					curHook.Assumes = append(curHook.Assumes, c)
+				} else if cur != nil && rest != "" {
+					// assume [label] expr at function level: an assumption made at entry (listed in the evidence), e.g. the
+					// interpretation a client gives to an uninterpreted predicate of a library contract
+					c, err := parseClause(rest, pos)
+					if err != nil {
+						return nil, err
+					}
+					cur.EntryAssumes = append(cur.EntryAssumes, c)
 				} else if cur != nil {
 					cur.Assumed = true
 				}
